@@ -28,7 +28,7 @@ CLAIMS = {
             "sibling direction table + must-pass-through"),
     "C05": ("LCK-2 atomic capture of (sequence, memtable, immutable memtable, version) under the mutex; ORD-8/ORD-8b publication after the "
             "unlocked WAL+memtable section; ORD-9 rotation without release point and never over a pending immutable memtable; OWN-2/OWN-3 "
-            "single writer; PAIR-6 group membership; ORD-3; PAIR-2; PAIR-16 followers released whatever the result; ORD-2 write-ahead order", "§5 C05, §11.3", "lock-region dataflow + who-may-call over the call graph"),
+            "single writer; PAIR-6 group membership; ORD-3; PAIR-2; PAIR-16 followers released whatever the result; ORD-2 write-ahead order; OWN-2 the visibility horizon is stored only by its setter and by recovery", "§5 C05, §11.3", "lock-region dataflow + who-may-call over the call graph"),
     "C06": ("ORD-8/ORD-8b/ORD-8c publication order and sequence ranges, LCK-1 sequence captured under the mutex, GRD-3 sequence filter on every "
             "yielding path of the client iterator, GRD-2/ORD-7/GRD-10 compaction keeps or drops the entries of one batch consistently",
             "§5 C06, §11.3", "lock-region dataflow + guards"),
@@ -36,13 +36,13 @@ CLAIMS = {
             "GRD-14, PAIR-9 boundary inputs, PAIR-3 bounds captured from the entries added, ERR-2, ORD-3", "§5 C07, §11.3",
             "accumulator-direction + control-dependence + role colours"),
     "C08": ("ERR-1 error discipline over every Result site of the lib crate, GRD-4 sticky-error gates, ORD-3, ERR-2, GRD-5, PAIR-10, PAIR-2 group "
-            "result delivered to followers and leader, ORD-2 sticky WAL error, ORD-4/ORD-5 CURRENT switch survives a failed manifest write, ERR-3 / ERR-4 iterator errors reach the caller (seek results, status chain), ORD-21",
+            "result delivered to followers and leader, ORD-2 sticky WAL error, ORD-4/ORD-5 CURRENT switch survives a failed manifest write, ERR-3 / ERR-4 iterator errors reach the caller (seek results, status chain), ORD-21, ERR-6 no fallible result is answered with unwrap / expect, PAIR-12 a failed block read leaves the two-level iterator consistent",
             "§5 C08, §11.3", "error-edge path analysis over MIR"),
     "C09": ("LCK-3 no re-entrant DB-mutex acquisition, LCK-4/LCK-4b waits in re-testing loops that leave on the sticky error, LCK-5/LCK-6 nested "
             "lock classes, ORD-10 worker epilogue, PAIR-4 schedule flag, ORD-11 writer hand-off, ORD-12 Drop order, PAIR-10, ORD-17, GRD-14 "
-            "non-empty manual compaction inputs, ORD-19 manual request withdrawn only after the background work finished, GRD-25, PAIR-16, GRD-9 non-blocking lock, PROG-2 rotation only of a non-empty memtable, ORD-12 shared-worker shutdown, TRIG-1 a writer stalled for level-0 relief has a due compaction (evaluated trigger constants)", "§5 C09, §11.3", "lock-region dataflow + call-graph summaries + must-pass-through"),
+            "non-empty manual compaction inputs, ORD-19 manual request withdrawn only after the background work finished, GRD-25, PAIR-16, GRD-9 non-blocking lock, PROG-2 rotation only of a non-empty memtable, ORD-12 shared-worker shutdown, TRIG-1 a writer stalled for level-0 relief has a due compaction (evaluated trigger constants), ERR-6 no panic on a fallible storage result (the compaction thread stays alive)", "§5 C09, §11.3", "lock-region dataflow + call-graph summaries + must-pass-through"),
     "C10": ("ROLE-1 smallest/largest fidelity, ROLE-2 writer/reader field-order agreement of the manifest codec, ROLE-3 levels, ROLE-5 version "
-            "builder ordering and deletion, PAIR-3, PAIR-12 (file, level) pairs, OWN-8 file-number counter, ERR-1 subset / ORD-3 / GRD-4 for "
+            "builder ordering and deletion, PAIR-3, PAIR-12 (file, level) pairs, OWN-8 file-number counter, ROLE-4 counters recorded in every edit and restored from the newest manifest record, ERR-1 subset / ORD-3 / GRD-4 for "
             "half-written tables", "§5 C10, §11.3", "role-colour dataflow"),
     "C11": ("GRD-5 deletion guards, OWN-4 who may delete, ORD-13 pending outputs registered from before the build until after the install, "
             "ORD-16 GC on every open and the recovery edit names the current WAL, ROLE-4 WAL numbers in edits, PAIR-1 version pins released, "
@@ -51,7 +51,7 @@ CLAIMS = {
             "on UnexpectedEof / cursor at length, GRD-11 block offset on reopen and writer/reader trailer agreement, GRD-6 error kind examined before any exit / a parsed fragment is returned, AGR-2 codec agreement of the fragment header, ORD-22 writer offset after the write, ORD-23 reader position follows the file cursor, ENUM-1 fragment-type decoder", "§5 C12, §11.3",
             "typestate automaton over MIR CFG"),
     "C13": ("VERD-1 lookup verdicts of Table::get, GRD-7 filter miss is control-dependent on key_may_match == false, PAIR-7 two-level direction, "
-            "PAIR-11 re-loaded child positioned, PAIR-5 filter population and offsets, KEY-1, AGR-2 writer/reader integer codecs of every table structure, GRD-27 separator strictly below the next key, ORD-20, BSRCH-1 BlockIter::seek is a lower-bound search, BLK-1 block cursor discipline, SRC-3, WRAP-1, ENUM-1", "§5 C13, §11.3", "verdict discipline"),
+            "PAIR-11 re-loaded child positioned, PAIR-5 filter population and offsets, KEY-1, AGR-2 writer/reader integer codecs of every table structure, GRD-27 separator strictly below the next key, ORD-20, BSRCH-1 BlockIter::seek is a lower-bound search, BSRCH-2 its shortcut only on an exact hit, BLK-1 block cursor discipline, CACHE-2 table / block cache identity, SRC-3, WRAP-1, ENUM-1", "§5 C13, §11.3", "verdict discipline"),
     "C14": ("PAIR-5/PAIR-5b filter population paired with data-block entries and unconditional in the filter builder, AGR-1 Bloom writer/reader "
             "probe-sequence agreement and probe count from the filter, GRD-8 fail-open filter reader, GRD-15 filter block belongs to the "
             "configured policy, GRD-7", "§5 C14, §11.3", "pairing + guards + sibling agreement"),
@@ -60,15 +60,15 @@ CLAIMS = {
     "C16": ("GRD-6 torn header/payload maps to end-of-log whatever is being reassembled, TS-1, OWN-7 log create modes, GRD-11, GRD-12 reuse only "
             "completely consumed logs and the consumed-bytes cursor counts complete reads only", "§5 C16, §11.3", "typestate + guards"),
     "C17": ("ORD-15 lock_file before recovery/any mutation in open and destroy_database and held while data is removed, OWN-6 db_lock written "
-            "only by open and Drop, OWN-6b, GRD-9 non-blocking exclusive lock kind that never unlinks the lock file, ORD-12, ORD-15 destroy_database unlinks LOCK while still holding the lock (D20), PAIR-4, FS-2", "§5 C17, §11.3",
+            "only by open and Drop, OWN-6b, GRD-9 non-blocking exclusive lock kind that never unlinks the lock file and is granted only on the inode the path still names (D27), ORD-12, ORD-15 destroy_database unlinks LOCK while still holding the lock (D20), PAIR-4, FS-2", "§5 C17, §11.3",
             "success-edge dominance + who-may-write"),
 }
 
 _B = {
-    "read": "read-path bundle (KEY-1, VERD-1/VERD-2, GRD-3, GRD-13, SRC-1/2/3, WRAP-1, OWN-10/11, ORD-21, LVL-1, ATOM-1, AGR-2, GRD-27, PAIR-13, BSRCH-1 lower-bound binary searches, BLK-1 block cursor, MRG-1 merge selection, ENUM-1 tag decoders, filter bundle PAIR-5/5b, AGR-1, GRD-8, GRD-15, GRD-7)",
-    "retain": "retention bundle (GRD-2, ORD-7, GRD-10, GRD-14, GRD-19, GRD-17, PAIR-9, ACC-1, ORD-3)",
+    "read": "read-path bundle (KEY-1, VERD-1/VERD-2, GRD-3, GRD-13, SRC-1/2/3, WRAP-1, OWN-10/11, ORD-21, LVL-1, ATOM-1, AGR-2, GRD-27, PAIR-13, BSRCH-1 lower-bound binary searches, BLK-1 block cursor, MRG-1 merge selection, ENUM-1 tag decoders, MEM-1 / CACHE-1 memtable and caching iterators, CACHE-2 LRU cache identity and fresh partition ids, BSRCH-2 seek shortcut only on an exact hit, OWN-16 the client iterator becomes valid only through its collapse loops, filter bundle PAIR-5/5b, AGR-1, GRD-8, GRD-15, GRD-7)",
+    "retain": "retention bundle (GRD-2, ORD-7, GRD-10, GRD-14, GRD-19, GRD-17, PAIR-9, ACC-1, ORD-3, EXP-1 level-0 input expansion is a fixpoint over the widened range)",
     "live": "liveness bundle (GRD-5, PAIR-1, OWN-12, ORD-13, LIST-1, LST-1 link repairs of the version / snapshot list, cache eviction)",
-    "recover": "recovery bundle (GRD-1, ORD-6, ORD-8c, ROLE-4, GRD-11, GRD-12, TS-1, GRD-6 incl. eof-only-from-a-short-read, ORD-23 reader position follows the file, FS-1/FS-2/FS-3, GRD-22, GRD-26/28/31/33/34/36, AGR-2/AGR-3, PAIR-17, ENUM-1, ERR-1 recovery subset)",
+    "recover": "recovery bundle (GRD-1, ORD-6, ORD-8c, ROLE-4 incl. the newest manifest record decides a recovered counter, GRD-11, GRD-12 incl. a fragment is counted as a whole, TS-1, GRD-6 incl. eof-only-from-a-short-read, ORD-23 reader position follows the file, FS-1/FS-2/FS-3, GRD-22, GRD-26/28/31/33/34/36, AGR-2/AGR-3, PAIR-17, ENUM-1, ERR-1 recovery subset)",
     "filter": "filter bundle (PAIR-5/5b, AGR-1, GRD-8, GRD-15, GRD-7)",
     "nopanic": "assertion bundle (PAIR-9, GRD-16, ROLE-5, OWN-13, GRD-35, GRD-14 non-empty, PAIR-10, ORD-17, GRD-22/23/25, PAIR-14, ORD-20, GRD-32)",
 }
